@@ -17,6 +17,7 @@ RULE = (
     "sizes 1..6 x 1..8; hide_cursor on/off; main screen pre-filled with junk. Oracle after every render: alt buffer active, every "
     "screen cell equals the array cell (top-left part if larger) or blank unformatted, cursor at cursor_pos, no scroll since enter. "
     "Non-trivial: a render following a different render (cache in play) that differs in >=1 row."
+    ' The caller may keep one list object and edit it in place between renders (same cursor position), terminals up to 24 x 40.'
 )
 ASSUMPTIONS = [
     "reference terminal = xterm semantics for the sequences blessed emits under TERM=xterm (vf/refterm.py); anything else is a harness error",
